@@ -57,6 +57,12 @@ def gen(i, R, tier):
         ops.append({"op": {"yml": "set_yml", "cli": "set_cli", "gitignore": "set_gitignore"}[ch], "patterns": pats})
     ops.append({"op": "scan", "nonce": G.nonce(rng), "spelling": "dot"})
     paths = sorted(placed)
+    if rng.random() < 0.15:
+        # whatever lies in the cache directory is none of check's business
+        ops.append(rng.choice(({"op": "cache_truncate", "frac": rng.random()}, {"op": "cache_replace", "kind": "garbage"},
+                               {"op": "cache_replace", "kind": "empty"}, {"op": "cache_replace", "kind": "list"},
+                               {"op": "cache_set_version", "version": "0.0.1", "marker": True},
+                               {"op": "cache_hibit", "field": "unit_name", "nth": 0})))
     if rng.random() < 0.35 and paths:
         # the tree moves on after the scan (pre-commit use: check runs on edited files while an
         # older cache is lying around); check must agree with a scan of the tree as it is now
@@ -91,6 +97,9 @@ def gen(i, R, tier):
                 targets.append([d])
             if rng.random() < 0.3:
                 targets.append(["<ROOT>/" + d])
+    for o in ops:
+        if o["op"] == "link" and not any(x.startswith(".") for x in o["dst"].split("/")):
+            targets.append([o["dst"]])          # the alias itself, by relative path
     targets.append(["."])
     targets.append(["<ROOT>"])
     if len(paths) >= 2 and rng.random() < 0.4:
